@@ -187,6 +187,18 @@ def step (st : St) (line : String) : St × String :=
         | some p =>
           ({ st with s := { st.s with evm := setContract st.s.evm p.contract { kind := .nocode, bals := fun _ => 0, supply := 0 } } }, "ok")
     | none => (st, "bad-op")
+  | ["restart"] => ({ st with s := restart st.s }, "ok")
+  | ["dry", _pkt] => (st, "ok")
+  | ["recv", pkt, "rejected"] =>
+    -- the harness says MsgRecvPacket.ValidateBasic refused the packet; the model's stateless stage must agree
+    match pkt.splitOn "," with
+    | seq :: _ :: _ :: _ :: _ :: data :: tl =>
+      let (tr, th, ts) := match tl with
+        | [a, b, c] => (a.toNat?.getD 0, b.toNat?.getD 0, c.toNat?.getD 0)
+        | _ => (1, 1000, 0)
+      let w : Wire := { seq := seq.toNat?.getD 0, dataEmpty := data == "-", timeoutRev := tr, timeoutHeight := th, timeoutTimestamp := ts }
+      (st, if packetValidateBasic w then "accepted" else "rejected")
+    | _ => (st, "bad-op")
   | "recv" :: pkt :: dec :: amt :: rcv :: dnm :: hn :: rest0 =>
     -- pkt = seq,srcPort,srcChan,dstPort,dstChan,data ; dnm = data.Denom as decoded ; then the sha256 naming of the
     -- raw traces the model may ask for (table computed by the harness with ibc-go's DenomTrace.IBCDenom)
